@@ -5,7 +5,8 @@ from seqprop import coverage, replay_file, corpus, audit
 
 LEVEL = "proof"
 COQ_TARGETS = ("props/C05.vo",)
-THEOREMS = ["C05_tracker_invariants", "C05_reads_frozen", "C05_fjall_parameters_ok", "C05_select_defined"]
+THEOREMS = ["C05_tracker_invariants", "C05_reads_frozen", "C05_fjall_parameters_ok", "C05_select_defined",
+            "C05_live_view_frozen_by_every_operation", "C05_tracker_invariant_kept", "C05_snapshot_frozen"]
 RULE = ("programs with up to 5 concurrently live views (snapshots / read_tx, write-transaction read views, lazily consumed "
         "iterators from iter/range/prefix, consumed from either end), some opened before the first write (instant 0) and "
         "several at the same instant, closed in random order, interleaved with writes, clears, ingestion, rotate/step/"
